@@ -56,6 +56,19 @@ UNREPRESENTABLE = [
     ("json", b'{"a": 18446744073709551615}', "toml", ("u64 value was too large",)),
     ("json", b'[1, 2]', "toml", "root of TOML output must be a table"),
 ]
+# the same causes where the parser's own context is long: a YAML path of sixteen long keys, a TOML line of 200 characters
+# (quoted and underlined in the message); the cause comes last in these messages
+_KEYS = ["key%02d_abcdefghijklmnopqr" % i for i in range(16)]
+_DEEP = "".join("  " * i + k + ":\n" for i, k in enumerate(_KEYS))
+_PAD = "x" * 200
+LONG_TOML = ('k = "%s"\n' % _PAD).encode()
+UNREPRESENTABLE += [
+    ("yaml", (_DEEP + "  " * 16 + "leaf: ~\n").encode(), "toml", ("expected any valid TOML value",)),
+    ("yaml", (_DEEP + "  " * 16 + "~: 1\n").encode(), "json", "key must be a string"),
+    ("toml", ('k = "%s" @\n' % _PAD).encode(), "json", "expected newline"),
+    ("toml", ('k = "%s" @\n' % _PAD).encode(), "msgpack", "expected newline"),
+    ("toml", ('k = { a = "%s", b = 18446744073709551615 }\n' % _PAD).encode(), "yaml", "number too large to fit in target type"),
+]
 
 
 def planted_syntax_errors(rng, tier):
@@ -143,7 +156,7 @@ def run_writer_faults(outcome, tier, seed):
     rng = random.Random(seed + 111)
     docs = [("json", b'{"a":[1,2],"b":{"c":"x","d":[true,null]}}'), ("json", b'{"a":[1,2]}'), ("json", b'[[1,2],[3,4]]\n[5]\n'),
             ("yaml", b"a: [1, 2]\nb:\n  c: x\n"), ("msgpack", corpus.mp({"a": [1, 2], "b": {"c": "x"}})),
-            ("toml", b'a = [1, 2]\n[b]\nc = "x"\n')]
+            ("toml", b'a = [1, 2]\n[b]\nc = "x"\n'), ("toml", LONG_TOML), ("yaml", (_DEEP + "  " * 16 + "leaf: [1, 2]\n").encode())]
     reqs, plans = [], []
     # fault-free outputs first
     free = []
